@@ -169,6 +169,12 @@ impl<'a, 'tcx> Cx<'a, 'tcx> {
 		if let Some(seg) = seg {
 			v.push(("seg", s(seg)));
 		}
+		// generic arguments of a path to an associated item (`Self::LABEL`, `T::OID`, `<T as Tr>::f`)
+		if let Res::Def(DefKind::AssocConst { .. } | DefKind::AssocFn, _) = res {
+			if !self.tr.node_args(hid).is_empty() {
+				v.push(("targs", self.targs(hid)));
+			}
+		}
 		v
 	}
 
@@ -189,6 +195,20 @@ impl<'a, 'tcx> Cx<'a, 'tcx> {
 			},
 			_ => None,
 		}
+	}
+
+	/// the generic arguments of a call, positionally (types spelt out, lifetimes as `'_`): together with the callee's
+	/// `generics` names they let a consumer substitute `T` / `Self` inside generic and trait-provided bodies
+	fn targs(&self, hid: hir::HirId) -> J {
+		let args = self.tr.node_args(hid);
+		J::Arr(
+			args.iter()
+				.map(|a| match a.as_type() {
+					Some(t) => s(tys(t)),
+					None => s("'_"),
+				})
+				.collect(),
+		)
 	}
 
 	/// `x.into()` / `x.try_into()`: the `From` / `TryFrom` impl that core's blanket impl forwards to
@@ -497,6 +517,9 @@ impl<'a, 'tcx> Cx<'a, 'tcx> {
 								if let Some(fw) = self.forwarded(did, f0.hir_id) {
 									v.push(("fwd", s(fw)));
 								}
+								if !self.tr.node_args(f0.hir_id).is_empty() {
+									v.push(("targs", self.targs(f0.hir_id)));
+								}
 							}
 						},
 						Res::SelfCtor(impl_did) => {
@@ -521,6 +544,9 @@ impl<'a, 'tcx> Cx<'a, 'tcx> {
 					}
 					if let Some(fw) = self.forwarded(did, e.hir_id) {
 						v.push(("fwd", s(fw)));
+					}
+					if !self.tr.node_args(e.hir_id).is_empty() {
+						v.push(("targs", self.targs(e.hir_id)));
 					}
 				}
 				v.push(("recv", self.expr(recv)));
@@ -1147,6 +1173,15 @@ fn emit(tcx: TyCtxt<'_>, dir: &str, name: &str) {
 		];
 		span_info(tcx, tcx.def_span(did), &mut bv);
 		let is_closure = tcx.is_closure_like(did);
+		if matches!(dk, DefKind::Fn | DefKind::AssocFn | DefKind::AssocConst { .. }) {
+			let g = tcx.generics_of(did);
+			if g.count() > 0 {
+				bv.push((
+					"generics",
+					J::Arr((0..g.count()).map(|i| s(g.param_at(i, tcx).name.to_string())).collect()),
+				));
+			}
+		}
 		if !is_closure && !matches!(dk, DefKind::AnonConst | DefKind::InlineConst) {
 			if let Some(body) = tcx.hir_maybe_body_owned_by(ldid) {
 				let tr = tcx.typeck(ldid);
